@@ -996,3 +996,12 @@ func StructFieldOriginsAt(v ssa.Value, fld *types.Var, use ssa.Instruction) []Le
 	}
 	return out
 }
+
+// sliceIsOverArray: the slice expression slices (a pointer to) an array of type arr.
+func sliceIsOverArray(sl *ssa.Slice, arr types.Type) bool {
+	pt, ok := sl.X.Type().Underlying().(*types.Pointer)
+	if !ok {
+		return false
+	}
+	return types.Identical(pt.Elem(), arr)
+}
